@@ -99,8 +99,6 @@ impl Clone for BuiltInFunctionKind { #[verifier::external_body] fn clone(&self) 
 impl Copy for BuiltInFunctionKind {}
 impl Clone for BuiltInMethodKind { #[verifier::external_body] fn clone(&self) -> (r: Self) { unimplemented!() } }
 impl Copy for BuiltInMethodKind {}
-#[verifier::external_body]
-pub fn type_representation(value: &Value) -> (r: TypeName) { unimplemented!() }
 /// env.prev_method_call_args: remember the receiver and arguments of the first call of each method (eval-up-to)
 #[verifier::external_body]
 pub fn vprev_method_call_record(env: &mut Env, ty: &TypeName, meth_name: &Symbol, receiver_value: &Value, arg_values: &Vec<Value>)
